@@ -220,7 +220,7 @@ def dev_unit(unit, rebaseline, seed=0):
     for r in u.undecided:
         print('  UNDECIDED:', r)
     for o in u.obligations:
-        st = 'FAIL' if o.id in u.failed else 'ok'
+        st = 'FAIL' if o.id in u.failed else ('??' if getattr(u, 'invalid', False) else 'ok')
         print(f'  [{st}] {o.id}  {sorted(o.props)}')
         for d in u.failed.get(o.id, []):
             print(f'         {d["message"]} @ {d.get("site")}')
